@@ -232,7 +232,7 @@ Lemma wrap_u32_id x : R32 x -> wrap_u32 x = x.
 Proof. unfold R32, wrap_u32. intro H. apply Z.mod_small. lia. Qed.
 
 Definition f_sweep : bool :=
-  forallb (fun p => forallb (fun a => f p a <? 2 ^ 31) (range 0 17)) (range 1 14).
+  forallb (fun p => forallb (fun a => choose_fast (p + a - 1) p <? 2 ^ 31) (range 0 17)) (range 1 14).
 Lemma f_sweep_ok : f_sweep = true.
 Proof. vm_compute. reflexivity. Qed.
 
@@ -243,6 +243,7 @@ intros Hp Ha. unfold R32, Rn32.
 pose proof f_sweep_ok as S. unfold f_sweep in S. rewrite forallb_forall in S.
 specialize (S p (range_in 1 14 p ltac:(lia))). rewrite forallb_forall in S.
 specialize (S a (range_in 0 17 a ltac:(lia))). apply Z.ltb_lt in S.
+rewrite choose_fast_correct in S. fold (f p a) in S.
 pose proof (f_nonneg p a). repeat split; lia.
 Qed.
 
